@@ -169,6 +169,20 @@ def r7c(prog, rep):
                     adds = any(op.startswith('Add') for op, _ in org.binops)
                     if adds and org.has_call(r'vec::Vec::<T, A>::len$|::len$') and l in org.locals:
                         ok = True
+                        # ... the length of the file's rows while they are still there: no call that empties that list (it is the
+                        # source of an `append`, drained, cleared, taken) lies before the len() in the same iteration
+                        for lc in [x for x in org.calls if x.short == 'len' and x.args]:
+                            v = mir.nearest_user_local(fn, lc.args[0])
+                            if v is None:
+                                continue
+                            for x in fn.calls:
+                                if x.bb not in lp[1] or x is lc or not fn.dominates(x.bb, lc.bb):
+                                    continue
+                                emptied = (x.short == 'append' and len(x.args) > 1 and mir.nearest_user_local(fn, x.args[1]) == v) or \
+                                          (x.short in ('drain', 'clear', 'truncate', 'take', 'split_off') and x.args and mir.nearest_user_local(fn, x.args[0]) == v and
+                                           re.search(r'vec::Vec|mem::take', x.callee))
+                                if emptied:
+                                    ok = False
             return [(ok, fn, c)]
         if depth >= 3:
             return []
